@@ -710,6 +710,31 @@ def idx_enclosing_while(_unused, node):
     return enclosing(node, (ast.While,))
 
 
+def r10(k: Kit) -> None:
+    """End of file is asked of the server each time it is needed."""
+    rep = k.rep
+    rep.rule('C12.R10', 'SFTPClientFile._end (read-to-end, tell / seek '
+             'relative to the end, default truncate size) returns a size '
+             'obtained from self.stat() in the same call on every path: a '
+             'size remembered across calls is stale after an append-mode '
+             'write (whose offset is a placeholder), a write through another '
+             'handle or by the server side')
+    fi = k.func('sftp.SFTPClientFile._end')
+    g = k.cfg(fi)
+    st = [n.id for n, c in k.calls_named(fi, 'stat', 'self')]
+    rets = [n for n in g.nodes if isinstance(n.ast, ast.Return)]
+    rep.floor('C12.R10', 'returns of _end', len(rets), 1)
+    for r in rets:
+        w = g.must_pass(st, dst=r.id)
+        rep.check(bool(st) and w is None, 'C12.R10',
+                  key(fi, 'size from a fresh stat'),
+                  'every path to the return passes self.stat()',
+                  '_end() can return without asking the server: read() to '
+                  'end of file returns a prefix and seek(SEEK_END) / '
+                  'truncate() work on a stale size after the file grew',
+                  k.loc(fi, r), g.describe_path(w) if w else None)
+
+
 def run(idx, rep, tier):
     k = Kit(idx, rep)
     rep.assumptions += NOT_DECIDED
@@ -722,3 +747,4 @@ def run(idx, rep, tier):
     r7(k)
     r8(k)
     r9(k)
+    r10(k)
